@@ -86,6 +86,8 @@ pub fn run(case: &str) -> String {
                     Ok(0) if k == 0 => {}   // an empty buffer: nothing read, nothing learnt
                     Ok(0) => { status = "EOF"; break; }
                     Ok(n) => out.extend_from_slice(&buf[..n]),
+                    // an interrupted read delivers nothing; the caller goes on with its next read
+                    Err(e) if e.kind() == std::io::ErrorKind::Interrupted => {}
                     // a fixed-length body that was cut short: asked again, the reader must not report a normal end
                     Err(_) => { status = if fixed_kind && matches!(rd.read(&mut buf[..16]), Ok(0)) { "ERREOF" } else { "ERR" }; break; }
                 }
@@ -93,6 +95,7 @@ pub fn run(case: &str) -> String {
                 let n = match rd.fill_buf() {
                     Ok(a) if a.is_empty() => { status = "EOF"; break; }
                     Ok(a) => { let n = k.min(a.len()); out.extend_from_slice(&a[..n]); n }
+                    Err(e) if e.kind() == std::io::ErrorKind::Interrupted => 0,
                     Err(_) => { status = if fixed_kind && matches!(rd.fill_buf(), Ok(a) if a.is_empty()) { "ERREOF" } else { "ERR" }; break; }
                 };
                 rd.consume(n);
@@ -210,7 +213,7 @@ pub fn gen(ctx: &Ctx) {
     }
     // a stream whose reads are interrupted (EINTR) now and then, under the callers that retry by themselves: BodyReader::vec
     // (read_to_end) and read_until; the body is delivered whole all the same
-    for i in 0..(if ctx.thorough { 3000 } else { 300 }) {
+    for i in 0..(if ctx.thorough { 6000 } else { 600 }) {
         let len = match rng.below(6) { 0 => 1, 1 => rng.range(4000, 9000) as usize, _ => rng.range(2, 300) as usize };
         let p = payload(&mut rng, len);
         let (kind, mut d) = if i % 2 == 0 { (format!("F{}", p.len()), p.clone()) } else { ("C".to_string(), encode_chunked(&mut rng, &p)) };
@@ -218,11 +221,13 @@ pub fn gen(ctx: &Ctx) {
         let (lo, segs) = split_segs(&mut rng, &d);
         if segs.is_empty() { continue; }
         let marks: Vec<bool> = (0..segs.len()).map(|j| rng.chance(1, 3) || j == segs.len() / 2).collect();
-        let mode = if i % 4 < 2 { "V" } else { "L" };
+        // V / L: the callers of std that retry by themselves; R / B: read-by-read against the model with events (Model/BodyIntr.v)
+        let nint = marks.iter().filter(|m| **m).count();
+        let mode = match i % 8 { 0 | 1 => "V".to_string(), 2 | 3 => "L".to_string(), 4 | 5 => format!("R{}", sizes(&mut rng, len + nint)), _ => format!("B{}", sizes(&mut rng, len + nint)) };
         let case = format!("{} {} {} {}", kind, hex(&lo), segs.iter().zip(&marks).map(|(s, m)| format!("{}{}", if *m { "!" } else { "" }, hex(s))).collect::<Vec<_>>().join(","), mode);
         let r = run(&case);
         let st = r.rsplit(' ').next().unwrap_or("?").to_string();
-        out.emit(&case, &r, &format!("interrupted/{}/{mode}/{st}", &kind[..1]), !r.starts_with("- "));
+        out.emit(&case, &r, &format!("interrupted/{}/{}/{st}", &kind[..1], &mode[..1]), !r.starts_with("- "));
     }
     if ctx.thorough {
         for _ in 0..6 {
